@@ -253,21 +253,31 @@ INIT_BOXES = ["ftyp", "moov", "moov/mvhd", "moov/mvex", "moov/mvex/trex", "moov/
               "moov/trak/mdia/minf/stbl/stts", "moov/trak/mdia/minf/stbl/stsc", "moov/trak/mdia/minf/stbl/stsz",
               "moov/trak/mdia/minf/stbl/stco", "moov/trak/mdia/minf/*hd"]
 
-# mandatory attributes (ISO/IEC 23009-1) the catalogue removes; `live`/`vod` = where they are mandatory
-MPD_ATTRS = [
-    ("/d:MPD", "profiles", ("live", "vod")),
-    ("/d:MPD", "minBufferTime", ("live", "vod")),
-    ("/d:MPD", "type", ("live",)),
-    ("/d:MPD", "availabilityStartTime", ("live",)),
-    ("/d:MPD", "mediaPresentationDuration", ("vod",)),
-    ("/d:MPD/d:Period[1]", "id", ("live",)),
-    ("(//d:AdaptationSet)[{i}]", "mimeType", ("live", "vod")),
-    ("(//d:Representation)[{i}]", "id", ("live", "vod")),
-    ("(//d:Representation)[{i}]", "bandwidth", ("live", "vod")),
-    ("(//d:SegmentTemplate)[{i}]", "media", ("live", "vod")),
-    ("(//d:SegmentTemplate[not(d:SegmentTimeline)])[{i}]", "duration", ("live", "vod")),
-    ("(//d:SegmentTimeline/d:S)[{i}]", "d", ("live", "vod")),
-]
+# The attributes whose removal the catalogue enumerates are not listed here: they are the rows of the Lean table
+# `mandatoryAttrs` (Model/Validator.lean – every attribute the validator requires, per mode, with the error and its
+# location; Props/C18.lean `mandatory_table_detected` proves each row by `decide`), read through the driver.
+ELEM_XPATH = {
+    "mpd": "/d:MPD",
+    "period": "/d:MPD/d:Period[1]",
+    "adaptationSet": "(//d:AdaptationSet)[{i}]",
+    "representation": "(//d:Representation)[{i}]",
+    "segmentTemplate": "(//d:SegmentTemplate)[{i}]",
+    "s": "(//d:SegmentTimeline/d:S)[{i}]",
+}
+_ATTR_TABLE = None
+
+
+def attr_table() -> list:
+    """rows of the model's table: dicts elem, attr, mode, timeline ('-'|'1'|'0'), expect=[(loc, err)…]"""
+    global _ATTR_TABLE
+    if _ATTR_TABLE is None:
+        rows: dict = {}
+        for tok in common.run_driver(["vattrs"])[0].split(";"):
+            elem, attr, mode, tl, loc, err = tok.split(",")
+            rows.setdefault((elem, attr, mode, tl), []).append((loc, err))
+        _ATTR_TABLE = [{"elem": k[0], "attr": k[1], "mode": k[2], "timeline": k[3], "expect": v}
+                       for k, v in rows.items()]
+    return _ATTR_TABLE
 
 
 def addressing(case) -> str:
@@ -300,6 +310,7 @@ def gen_corruptions(ctx, rng, base, res, per_base: int):
     if not reps:
         return out
     cands = []
+    attrs = []
     # every media-segment corruption of the catalogue on the FIRST, an INTERIOR and the LAST fetched segment
     # of a Representation (one Representation per kind and session, chosen at random)
     placed = []
@@ -353,19 +364,40 @@ def gen_corruptions(ctx, rng, base, res, per_base: int):
     xml = first_manifest(res)
     if xml is not None:
         root = M.parse_xml(xml)
-        for xp, attr, modes in MPD_ATTRS:
-            if base.mode not in modes:
+        # "mandatory attribute removed" is ENUMERATED: every row of the model's table that applies to this
+        # manifest, in the first manifest response and (live sessions that reload) in a refreshed one
+        whens = [("first", 0)]
+        n_loads = sum(1 for ex in res.exchanges if ex.cls == "manifest")
+        if base.mode == "live" and n_loads >= 2 and "patch" not in base.query:
+            whens.append(("refreshed", rng.randrange(1, n_loads)))
+        for row in attr_table():
+            if row["mode"] != base.mode:
                 continue
+            elem, attr = row["elem"], row["attr"]
             if attr == "mediaPresentationDuration" and all(
                     p.get("duration") is not None for p in root.findall(M._q("Period"))):
-                continue      # optional when every Period has @duration (ISO/IEC 23009-1 5.3.1.2)
+                continue      # the row is about manifests whose Periods have no @duration (durationMissing)
+            xp = ELEM_XPATH[elem]
             if "{i}" in xp:
                 els = root.xpath(xp.replace("[{i}]", ""), namespaces={"d": M.DASH_NS})
-                idx = [i for i, el in enumerate(els, start=1) if el.get(attr) is not None]
+                idx = []
+                for i, el in enumerate(els, start=1):
+                    if el.get(attr) is None:
+                        continue
+                    if elem == "segmentTemplate" and row["timeline"] != "-" and \
+                            (el.find(M._q("SegmentTimeline")) is not None) != (row["timeline"] == "1"):
+                        continue
+                    if elem == "s" and attr == "t" and el.getprevious() is not None:
+                        continue          # the row is about the first S of a timeline
+                    idx.append(i)
                 if not idx:
                     continue
                 xp = xp.replace("{i}", str(rng.choice(idx)))
-            cands.append({"kind": "mpdattr", "nth": 0, "xpath": xp, "attr": attr})
+            elif root.xpath(xp, namespaces={"d": M.DASH_NS})[0].get(attr) is None:
+                continue
+            for when, nth in whens:
+                attrs.append({"kind": "mpdattr", "nth": nth, "xpath": xp, "attr": attr, "elem": elem, "when": when,
+                              "expect": [f"{loc}={err}" for loc, err in row["expect"]]})
         tls = root.findall(f".//{M._q('SegmentTimeline')}")
         doc_reps = [r for p in res.passes[:1] for r in p["post"]["reps"]]
         for which, tl in enumerate(tls):
@@ -413,7 +445,7 @@ def gen_corruptions(ctx, rng, base, res, per_base: int):
             seen.add(c["kind"])
             ordered.append(c)
     ordered += [c for c in cands if c not in ordered]
-    for c in cross + placed + ordered[:per_base]:
+    for c in attrs + cross + placed + ordered[:per_base]:
         out.append(c18_run.Case(base.stream, base.template, base.mode, dict(base.query), base.duration,
                                 base.now, corruption=c, break_on_error=not c.get("run_on", False)))
     return out
@@ -1092,6 +1124,8 @@ def run_sessions(app, cases, chs, batch, limit_s=None):
             run.count(f"not-applicable:{label}")
             continue
         run.count(f"{case.mode}:{label}")
+        if c is not None and "when" in c:
+            run.count(f"attribute:{c['elem']}@{c['attr']}:{case.mode}:{c['when']}")
         if c is not None and "at" in c:
             run.count(f"refresh-position:{c['kind']}:{c['at']}:" + ("long" if c.get("loads", 0) >= 6 else "short")
                       + (":run-to-end" if not case.break_on_error else ":stop-at-error"))
@@ -1142,9 +1176,19 @@ def channels(ctx):
         corrupted += gen_corruptions(ctx, rng, case, res, per_base)
     # make sure every kind of the catalogue is exercised even when the budget cuts the list
     corrupted.sort(key=lambda c: 0)
-    kinds_first, rest, seen = [], [], {}
+    kinds_first, rest, seen, attr_first = [], [], {}, []
     for c in corrupted:
         k = (c.corruption["kind"], c.mode)
+        if "when" in c.corruption:
+            # one session per (attribute, static|live, first|refreshed manifest) before anything else
+            k += (c.corruption["elem"], c.corruption["attr"], c.corruption["when"])
+            limit = 1 if not ctx.thorough else 3
+            if seen.get(k, 0) < limit:
+                seen[k] = seen.get(k, 0) + 1
+                attr_first.append(c)
+            else:
+                rest.append(c)
+            continue
         if "place" in c.corruption:
             # … in static and live sessions, $Time$ and $Number$ addressing
             k += (c.corruption["place"], addressing(c))
@@ -1173,7 +1217,7 @@ def channels(ctx):
             kinds_first.append(c)
         else:
             rest.append(c)
-    run_sessions(app, kinds_first + rest, chs, batch, limit_s=max(10, budget - (time.time() - t0)))
+    run_sessions(app, attr_first + kinds_first + rest, chs, batch, limit_s=max(10, budget - (time.time() - t0)))
     run_direct_channel(ctx, app, chs["vsegx"], batch)
     batch.run()
     run = chs["validator_run"]
